@@ -111,24 +111,23 @@ Theorem C19_history_nonvacuous :
 Proof. exact ex_history. Qed.
 Print Assumptions C19_history_nonvacuous.
 
-(* Capacity.  The full statement "the capacities of all defined slots never exceed total_capacity" is FALSE for the
-   driver: upload(force=True) (and free_program) release slots without cleanup; find_place counts freed slots behind
-   the last referenced one as reclaimed, but _amend_segments appends behind them. *)
-Definition C19_history_capacity_statement : Prop :=
-  forall total ops, 192 <= total -> zsum (dv_caps (run (clear total) ops)) <= total.
-Theorem C19_history_capacity_refuted :
-  exists total ops, 192 <= total /\ ~ zsum (dv_caps (run (clear total) ops)) <= total.
-Proof. exact capacity_overflow_witness. Qed.
-Print Assumptions C19_history_capacity_refuted.
-
-(* under the guard (no upload places segments while freed slots trail the last referenced one; lengths >= 0) it holds *)
+(* Capacity.  After every history the capacities of all defined slots fit into the instrument.  This was FALSE for the
+   driver before /repo's repair of the finding `append-behind-freed-trailing-slots` (upload(force=True) / free_program
+   release slots without cleanup; find_place counts freed slots behind the last referenced one as reclaimed, but
+   _amend_segments appended behind them); upload() now calls cleanup() right before _amend_segments and the statement
+   holds without a guard.  `ops_lens_nonneg` is input well-formedness: segment lengths are numbers of points. *)
 Theorem C19_history_capacity : forall total ops,
-  192 <= total -> guard_C19_append_behind_freed_slots (clear total) ops = true ->
+  192 <= total -> ops_lens_nonneg ops = true ->
   zsum (dv_caps (run (clear total) ops)) <= total.
-Proof. exact history_capacity_guarded. Qed.
+Proof. exact history_capacity. Qed.
 Print Assumptions C19_history_capacity.
 
-(* the guard is satisfiable by a history with sharing, removal, re-use and a forced re-upload *)
-Theorem C19_history_capacity_nonvacuous : guard_C19_append_behind_freed_slots (clear 100000) ex_ops = true.
-Proof. exact ex_ops_guard. Qed.
+(* the hypothesis is satisfiable by a history with sharing, removal, re-use and a forced re-upload; and the history
+   that over-committed the memory before the repair (2032 of 2000 points) now ends with 1184 points in 4 slots *)
+Theorem C19_history_capacity_nonvacuous :
+  ops_lens_nonneg ex_ops = true /\
+  ops_lens_nonneg overflow_ops = true /\
+  dv_caps (run (clear 2000) overflow_ops) = [192; 208; 400; 384] /\
+  map pg_w2s (dv_known (run (clear 2000) overflow_ops)) = [ [1; 2; 3] ].
+Proof. exact (conj ex_ops_lens former_overflow_witness). Qed.
 Print Assumptions C19_history_capacity_nonvacuous.
